@@ -12,7 +12,7 @@ RULE = ("generated programs (dump + full run trace) and the example plans shippe
         "compositions of layout transformations: leading indentation (spaces, tabs, none), backslash continuation at any token "
         "boundary, continuation lines beginning with a connective or comparison token, blank and comment lines between commands and "
         "before connective continuation lines, trailing ` # comment` (with quotes, #, verbs, connectives in the text) on lines not "
-        "ending in a backslash; distinct = distinct (program, transformed text); non-trivial = the transformed text differs from the "
+        "ending in a backslash, a stretch of whole commands moved into a file of its own and replaced by `load`; distinct = distinct (program, transformed text); non-trivial = the transformed text differs from the "
         "canonical text in at least 3 lines and the canonical program built")
 META = {"engine": "A floscript", "technique": "metamorphic runtime check: dump and run-trace equality under layout transformations",
         "level_text": "The canonical and every re-laid-out script are really built (and, for generated programs, run); the structural dumps "
@@ -98,6 +98,44 @@ def relayout(text, rng, rate=0.5):
     return "\n".join(out), changed
 
 
+def split_load(text, rng, dirpath, n):
+    """move one stretch of whole commands (each with its continuation lines) into a file of its own and put a `load` of
+    that file in its place: the builder reads the loaded file at that point and then goes on with the parent.  Half of the
+    time the loaded file ends right with the last (continuation) line of its last command."""
+    lines = text.split("\n")
+    starts = []
+    in_group = False
+    for i, L in enumerate(lines):
+        body = L.strip()
+        if in_group:
+            in_group = body.endswith("\\")
+            continue
+        if body.endswith("\\"):
+            in_group = True
+        if not body or body.startswith("#"):
+            continue
+        toks = TOKEN.findall(body)
+        if toks and toks[0] not in RESERVED:
+            starts.append(i)
+    if len(starts) < 4:
+        return text, 0
+    a = rng.choice(starts[1:-1])
+    later = [x for x in starts if x > a]
+    b = rng.choice(later[:6])
+    chunk = lines[a:b]
+    keep = []
+    if rng.random() < 0.5:           # blank / comment lines at the end of the stretch stay in the parent
+        while chunk and (not chunk[-1].strip() or chunk[-1].strip().startswith("#")):
+            keep.insert(0, chunk.pop())
+    if not chunk:
+        return text, 0
+    path = os.path.join(dirpath, "part%d.flo" % n)
+    with open(path, "w") as f:
+        f.write("\n".join(chunk) + ("\n" if rng.random() < 0.5 else ""))
+    out = lines[:a] + [indent(rng) + "load " + path] + keep + lines[b:]
+    return "\n".join(out), 1
+
+
 def obs_run(res):
     ev = [(e["tick"], e["framer"], e["frame"], e["ctx"], e["tag"], json.dumps(e["snap"], sort_keys=True)) for e in res.trace]
     ticks = [(t["tick"], json.dumps({n: (f["status"], f["actives"]) for n, f in t["framers"].items()}, sort_keys=True),
@@ -115,6 +153,7 @@ def first_diff(a, b):
 
 def worker(ctx, job):
     from vf.flo import dump, runner
+    partdir = core.scratch_dir("c16parts")
     for item in job["items"]:
         rng = random.Random(item["seed"])
         if item["kind"] == "gen":
@@ -143,6 +182,11 @@ def worker(ctx, job):
             r0 = obs_run(runner.run_text(canon, maxticks=cap, watch=gen.WATCH))
         for v in range(job["variants"]):
             text, changed = relayout(canon, rng, rate=rng.choice([0.3, 0.6, 0.9]))
+            if rng.random() < 0.35:
+                text, nl = split_load(text, rng, partdir, v)
+                if nl:
+                    changed += 3
+                    ctx.hit("variants_with_load")
             o1, det1, houses1 = dump.build_text(text)
             ctx.event()
             ctx.hit("variants_" + item["kind"])
@@ -188,3 +232,4 @@ def run(ctx):
     ctx.floor("variants_gen", 200)
     ctx.floor("variants_plan", 50)
     ctx.floor("runs_compared", 200)
+    ctx.floor("variants_with_load", 60)
